@@ -120,6 +120,16 @@ func (r *GetRangeResult) Verify(dataRoot []byte) error {
 	if len(r.Shares) != len(r.Proof.Data) {
 		return errors.New("share count does not match the proven data")
 	}
+	for _, proof := range r.Proof.ShareProofs {
+		if proof == nil {
+			return errors.New("share proof is missing")
+		}
+	}
+	for _, proof := range r.Proof.RowProof.Proofs {
+		if proof == nil {
+			return errors.New("row proof is missing")
+		}
+	}
 	rawShares := libshare.ToBytes(r.Shares)
 	for i, shares := range rawShares {
 		if !bytes.Equal(shares, r.Proof.Data[i]) {
